@@ -26,6 +26,7 @@ var (
 func checkC14(c *chk.Ctx) {
 	h := newH(c)
 	c.Decided = []string{
+		"R14g within one put the previous owner's ownership entry is removed before the new one is written, never after it (when a session re-writes its own record both are the same key)",
 		"R14a a shadow (ownership) entry is only written after the session's key was found in the same batch; a missing session yields SESSION_DOES_NOT_EXIST",
 		"R14b every mutation kind (put, delete, delete with entry, range delete) removes the previous owner's shadow; the wrapper callback chains session then index handling for all four kinds; the apply functions invoke the callback before mutating the record",
 		"R14c session cleanup is one write request carrying the owned keys, the session key and the shadow range (open finding F17: the owned keys are listed outside the batch and deleted unconditionally)",
@@ -43,6 +44,7 @@ func checkC14(c *chk.Ctx) {
 	ruleR14d(h)
 	ruleR12fInto(h, "R14e")
 	ruleR14f(h)
+	ruleR14g(h)
 }
 
 func isResultOf(h *H, v ssa.Value, spec ir.Callee) *ssa.Call {
@@ -844,4 +846,69 @@ func sessionsInheritManagerContext(h *H, mt, sessT *types.Named) bool {
 		})
 	}
 	return stores > 0 && stores == good
+}
+
+// ruleR14g: OnPut moves ownership: it deletes the shadow of the record's previous owner and,
+// for a session put, writes the shadow of the new one. When a session updates a record it
+// already owns the two are the same key, so the delete has to come first: a delete that
+// follows the put removes the entry just written, the record keeps its session id but
+// drops out of the session's index and survives the session.
+func ruleR14g(h *H) {
+	const rule = "R14g"
+	h.Rule(rule, "K1", "in the put callback of the session manager no deletion of a shadow key is reachable after the shadow key of the new owner was written", 1)
+	delFns := deleteShadowFns(h)
+	isShadowDelete := func(in ssa.Instruction) bool {
+		ci, ok := in.(ssa.CallInstruction)
+		if !ok {
+			return false
+		}
+		if h.P.Matches(ci.Common(), batchDelete) && isResultOf(h, argOf(ci.Common(), 0), shadowKeyFn) != nil {
+			return true
+		}
+		if f := ci.Common().StaticCallee(); f != nil && delFns[f] {
+			return true
+		}
+		return false
+	}
+	n := 0
+	for _, s := range h.P.AllCalls(ir.InPkg("server"), batchPut) {
+		if isResultOf(h, argOf(s.Call.Common(), 0), shadowKeyFn) == nil {
+			continue
+		}
+		n++
+		h.Fn(ir.FuncName(s.Fn))
+		bad := ""
+		// in the function that writes it, and in every function that statically calls it
+		// (the write then stands at the call site)
+		at, fn := ssa.Instruction(s.Call), s.Fn
+		for level := 0; level < 3 && bad == ""; level++ {
+			if r, path := ir.Reach(ir.Search{From: at}, isShadowDelete); r {
+				bad = "a shadow key is deleted after the new owner's shadow was written " + witness(path) + ": when a session writes a record it already owns, the entry just written is removed again, the record drops out of the session's index and outlives the session"
+			}
+			var up ssa.Instruction
+			if sites := ir.StaticCallSites(fn); len(sites) == 1 {
+				up = sites[0]
+			} else {
+				// an exported method of the callback object: its (single) static caller in the package
+				var cands []ssa.Instruction
+				for _, e := range h.P.CallersOf(fn) {
+					if e.Site != nil && e.Site.Common().StaticCallee() == fn && ir.InRepo(e.Caller.Func) {
+						cands = append(cands, e.Site)
+					}
+				}
+				if len(cands) == 1 {
+					up = cands[0]
+				}
+			}
+			if up == nil {
+				break
+			}
+			at, fn = up, up.Parent()
+			h.Fn(ir.FuncName(fn))
+		}
+		h.Verdict(bad == "", rule, fmt.Sprintf("order of ownership entries for shadow put #%d in %s", n, ir.FuncName(s.Fn)), h.pos(s.Call), "the previous owner's entry is removed first", bad)
+	}
+	if n == 0 {
+		h.Anchor(rule, "WriteBatch.Put(ShadowKey(...)) in package server")
+	}
 }
